@@ -17,6 +17,7 @@ import (
 	"go.temporal.io/server/common/log/tag"
 	"go.temporal.io/server/common/persistence/serialization"
 	"google.golang.org/protobuf/proto"
+	"google.golang.org/protobuf/reflect/protoreflect"
 
 	"github.com/temporalio/s2s-proxy/interceptor"
 	common122 "github.com/temporalio/s2s-proxy/proto/1_22/api/common/v1"
@@ -315,4 +316,53 @@ func (g *msgGen) genBlobCase(evPaths []opath) (data []byte, kind string) {
 		}
 	}
 	return data, kind
+}
+
+// legacyRoundTripBlobs passes every event blob inside m through the v1.22 schema (decode + encode with the legacy
+// serializer), as the blob repair does: fields unknown to v1.22 do not survive.
+func legacyRoundTripBlobs(m protoreflect.Message) {
+	m.Range(func(fd protoreflect.FieldDescriptor, v protoreflect.Value) bool {
+		switch {
+		case fd.IsMap():
+			if fd.MapValue().Message() != nil {
+				v.Map().Range(func(_ protoreflect.MapKey, mv protoreflect.Value) bool {
+					legacyRoundTripBlobs(mv.Message())
+					return true
+				})
+			}
+		case fd.Message() != nil && fd.Message().FullName() == "temporal.api.common.v1.DataBlob":
+			if nonEventBlobFields[string(fd.FullName())] {
+				return true
+			}
+			fix := func(bm protoreflect.Message) {
+				blob := bm.Interface().(*commonpb.DataBlob)
+				if len(blob.GetData()) == 0 {
+					return
+				}
+				ev122, err := legacySerializer.DeserializeEvents(&common122.DataBlob{EncodingType: enums122.ENCODING_TYPE_PROTO3, Data: blob.Data})
+				if err != nil {
+					return
+				}
+				if out, err := legacySerializer.SerializeEvents(ev122, enums122.ENCODING_TYPE_PROTO3); err == nil {
+					blob.Data = out.Data
+				}
+			}
+			if fd.IsList() {
+				for i := 0; i < v.List().Len(); i++ {
+					fix(v.List().Get(i).Message())
+				}
+			} else {
+				fix(v.Message())
+			}
+		case fd.Message() != nil:
+			if fd.IsList() {
+				for i := 0; i < v.List().Len(); i++ {
+					legacyRoundTripBlobs(v.List().Get(i).Message())
+				}
+			} else {
+				legacyRoundTripBlobs(v.Message())
+			}
+		}
+		return true
+	})
 }
